@@ -190,3 +190,11 @@ def harvested_constants(prefix="spacepackets"):
     # link-layer markers every CCSDS implementer knows (attached sync markers of 131.0-B), kept as a fixed supplement
     out.update({bytes.fromhex("1acffc1d"), bytes.fromhex("352ef853"), bytes.fromhex("eb90"), bytes.fromhex("034776c7272895b0"), b"cfdp"})
     return sorted(out)
+
+
+def hist_len(rng, lo, hi):
+    """Length of a history: usually lo..hi-1, but every 25th history or so is long (20 ... 400 steps) - counters, growing
+    lists, caches that fill up and thresholds that switch an algorithm only show in long ones."""
+    if rng.random() < 0.04:
+        return rng.choice((20, 33, 65, 130, 257, 400))
+    return rng.randrange(lo, hi)
